@@ -630,6 +630,54 @@ func proveIndex(f *ssa.Function, seq, idx ssa.Value, at ssa.Instruction) (string
 			return "proved", "constant index into an array"
 		}
 	}
+	// "index of the element found, or -1": idx merges negative constants with indexes that are in range where they are chosen,
+	// and the use lies behind a test that excludes the negative ones (the result of an expanded indexOf helper)
+	if phi, ok := idx.(*ssa.Phi); ok {
+		var guards []ssax.Edge
+		for _, cd := range condsBoth(f) {
+			if ssax.Resolve(cd.X) != ssax.Resolve(idx) && cd.X != idx {
+				continue
+			}
+			k, isK := ssax.ConstInt(cd.Y)
+			if !isK {
+				continue
+			}
+			b := cd.If.Block()
+			switch {
+			case cd.Op == token.GEQ && k == 0, cd.Op == token.GTR && k == -1, cd.Op == token.NEQ && k == -1:
+				guards = append(guards, ssax.Edge{From: b, Succ: 0})
+			case cd.Op == token.LSS && k == 0, cd.Op == token.LEQ && k == -1, cd.Op == token.EQL && k == -1:
+				guards = append(guards, ssax.Edge{From: b, Succ: 1})
+			}
+		}
+		behind := false
+		for _, g := range guards {
+			if !ssax.ReachableAvoiding(f, at, []ssax.Edge{g}, nil) {
+				behind = true
+			}
+		}
+		if behind && len(phi.Edges) == len(phi.Block().Preds) {
+			all, some := true, false
+			for i, e := range phi.Edges {
+				if k, isK := ssax.ConstInt(e); isK && k < 0 {
+					continue
+				}
+				pred := phi.Block().Preds[i]
+				if len(pred.Instrs) == 0 {
+					all = false
+					break
+				}
+				if v, _ := proveIndex(f, seq, e, pred.Instrs[len(pred.Instrs)-1]); v != "proved" {
+					all = false
+					break
+				}
+				some = true
+			}
+			if all && some {
+				return "proved", "index of a found element (negative 'not found' excluded by the dominating test)"
+			}
+		}
+	}
 	// range index: idx = phi+1 compared < len(seq) in the loop header
 	ip := ssax.Path(idx)
 	if strings.Contains(ip, "(phi((<cycle> + 1)|-1) + 1)") {
